@@ -412,9 +412,10 @@ def _m26(P):
 }''')
 
 
-# The two mutants below only DELAY the removal within the slack the stream has to grant on a loaded machine
-# (must-be-gone = expired for 10 intervals + 500 ms, re-checked after another 10 intervals + 400 ms): they
-# are expected to be missed and are not part of the default set.
+# Delay-only mutants. s1 DELAYS the removal within the slack the stream has to grant on a loaded machine
+# (must-be-gone = expired for 10 intervals + 500 ms, re-checked after another 10 intervals + 400 ms;
+# interval-ignored = median latency above 3 intervals + 200 ms): it is expected to be missed and is not part of
+# the default set.
 SLOW = {}
 
 
@@ -443,7 +444,7 @@ def _s1(P):
 """)
 
 
-@slow('s2', 'ExpireInterval below 500 ms is clamped to 500 ms')
+@mutant('s2', 'ExpireInterval below 500 ms is clamped to 500 ms (caught only by interval-ignored, in roughly one of ten cases)')
 def _s2(P):
     P('engine.go', """	ticker := time.NewTicker(interval)""", """	if interval < 500*time.Millisecond {
 		interval = 500 * time.Millisecond
